@@ -162,17 +162,68 @@ class Zeros(Contract):
 
 
 class GetDivisionCandidate(Contract):
-    """ASSUMED for the proof of poly_divmod (its body - two nested searches over lexsorted terms with early
-    continues - is exercised by the bounded check): returns None, or (idx1, idx2, include, candidate) with
-    valid term positions, include/candidate of the operands' shape, and candidate = C1[idx1] / C2[idx2] on include."""
+    """get_division_candidate(x1, x2): what poly_divmod relies on is proved from the source - it returns None, or
+    (idx1, idx2, include, candidate) with valid term positions, include/candidate of the operands' shape,
+    exponent row idx1 of x1 >= exponent row idx2 of x2 entry-wise, and on `include`: the divisor coefficient C2[idx2]
+    is non-zero and candidate = C1[idx1] / C2[idx2].  (That idx2 is the LEADING term of the divisor, which termination
+    rests on, is not part of this contract: bounded check.)"""
     name = "numpoly.get_division_candidate"
     relpath = "numpoly/poly_function/divide/divmod.py"
     func = "get_division_candidate"
     properties = ("C05",)
-    positional = ("x1", "x2")
+    positional = ("x1", "x2", "cutoff")
+
+    def _loops(self):
+        true = lambda ex, env, k: z3.BoolVal(True)
+        nothing = lambda ex, env, k: None
+
+        def inv2(ex, env, k):
+            inc, x2, idx2 = env["include2"], ex.inputs[1], env["idx2"]
+            if not isinstance(inc, Arr):
+                return [("mask", z3.BoolVal(False))]
+            return [("shape", inc.shape == x2.shape),
+                    ("only_where_the_divisor_coefficient_is_non_zero", ex.ctx.forall_idx(lambda i: z3.Implies(inc.elem(i), x2.C(idx2, i) != 0), x2.shape))]
+
+        def havoc2(ex, env, k):
+            f = ex.ctx.func("include2_h", Idx, B)
+            env["include2"] = Arr(ex.inputs[1].shape, lambda i: f(i), "bool")
+        return {1: LoopSpec(true, nothing, modifies=()), 2: LoopSpec(inv2, havoc2, modifies=("include2", "idx")),
+                3: LoopSpec(true, nothing, modifies=())}
 
     def cases(self):
-        return iter(())
+        def make_env(ex):
+            ctx = ex.ctx
+            ps0 = sym_polys(ex, 2)
+            fam = aligned_family(ex, ps0, base="ops", shape=bshape(ps0[0].shape, ps0[1].shape))
+            for q in fam:
+                q.region = Region("caller", "operand")
+            ctx.assume(ndim(fam[0].shape) >= 1)
+            ex.inputs = fam
+            ex.cutoff = ctx.real("cutoff")
+            return {"x1": fam[0], "x2": fam[1], "cutoff": ex.cutoff}
+
+        def check(out):
+            ex, ctx = out.ex, out.ctx
+            x1, x2 = ex.inputs
+            ex.oblige(f"raises.nothing[{out.exc}:{out.value}]" if out.kind == "raise" else "raises.nothing", z3.BoolVal(out.kind == "return"), "post")
+            if out.kind != "return":
+                return
+            r = out.value
+            if r is None:
+                return
+            ok = isinstance(r, tuple) and len(r) == 4 and isinstance(r[2], Arr) and isinstance(r[3], Arr)
+            ex.oblige("post.returns_None_or_a_4_tuple", z3.BoolVal(ok), "post")
+            if not ok:
+                return
+            idx1, idx2, include, candidate = r
+            ex.oblige("post.term_positions_valid", z3.And(0 <= idx1, idx1 < x1.N, 0 <= idx2, idx2 < x2.N), "post")
+            ex.oblige("post.mask_and_candidate_have_the_operand_shape", z3.And(include.shape == x1.shape, candidate.shape == x1.shape), "post")
+            ex.oblige("post.dividend_term_dominates_divisor_term", ctx.forall_range(
+                0, x1.D, lambda d: expo(x1.row(idx1), d) >= expo(x2.row(idx2), d)), "post")
+            ex.oblige("post.on_the_mask_divisor_coefficient_nonzero_and_candidate_is_the_ratio", ctx.forall_idx(lambda i: z3.Implies(
+                include.elem(i), z3.And(x2.C(idx2, i) != 0, candidate.elem(i) == x1.C(idx1, i) / x2.C(idx2, i))), x1.shape), "post")
+            ex.oblige("post.mask_and_candidate_are_new_arrays", z3.BoolVal(include.region.owner == "fresh" and candidate.region.owner == "fresh"), "post")
+        yield Case("", make_env, check, loops=self._loops())
 
     def apply(self, ex, args, kw, node):
         x1, x2 = args[0], args[1]
